@@ -25,7 +25,7 @@ def clean(root, progs):
 
 def run_module_configs(rep, tier):
     n = 24 if tier == "quick" else 150
-    progs = EV.gen_batch(n, {"units": [2, 3], "max_structs": 8, "adversarial": False}, "c16")
+    progs = EV.gen_batch(n, {"units": [2, 3], "max_structs": 8, "adversarial": False, "p_slice_value": 0.7, "p_func": 0.6}, "c16")
     # rename packages in a few programs so that import aliases are in play
     import random
     rng = random.Random(seed() + 16)
@@ -54,7 +54,7 @@ def run_module_configs(rep, tier):
                     fails.append({"stream": "c16", "why": ["output for %s differs under configuration '%s'" % (p.name, label)],
                                   "program": p.name, "reference": (ref[p.name] or "")[:1500], "other": (got.get(p.name) or "<none>")[:1500]})
         # repeats (map iteration order)
-        for k in range(3 if tier == "quick" else 8):
+        for k in range(6 if tier == "quick" else 12):
             clean(base, progs)
             run([WIRE, "gen", "./..."], cwd=base, env=dict(GOENV), timeout=600)
             compare("repeat %d" % k, collect(base, progs))
